@@ -31,7 +31,7 @@ Print Assumptions C09_table_sound.
 
 (* the three classes are contiguous ranges in the order WD < NS < BH *)
 Theorem C09_classes_contiguous : forall J f m, i_wd_mi_up f <= i_bh_lo f ->
-  (predict_type (O:=R_ops J) f m = WD <-> m <= i_wd_mi_up f) /\
+  (predict_type (O:=R_ops J) f m = WD <-> m <= i_wd_mi_up f /\ m < i_bh_lo f) /\
   (predict_type (O:=R_ops J) f m = NS <-> i_wd_mi_up f < m < i_bh_lo f) /\
   (predict_type (O:=R_ops J) f m = BH <-> i_bh_lo f <= m).
 Proof. exact classes_contiguous. Qed.
